@@ -33,6 +33,7 @@ FEW_REGION_WORKLOADS = {
     "sdmx": [50, 20, 20],
     "legacy_direct": [50, 20, 20],
     "legacy_sdmx": [50, 20, 20],
+    "fft_wrapper": [100, 50, 50],
     "pbc_helpers": [50, 20, 20],
     "vxc_numint": [50, 20, 20],
 }
@@ -49,7 +50,7 @@ def assumptions():
         "sequential consistency at access granularity; hardware reordering and torn sub-word stores are not modelled",
         "BLAS/LAPACK (system OpenBLAS, 1 thread) and libm calls are atomic steps of the simulation",
         "PySCF's own OpenMP code runs single-threaded outside the simulator",
-        "FFT (FFTW absent) and MPI paths do not run; regions only reachable through them are listed under regions_never_multi",
+        "FFTW is absent: a naive-DFT stand-in (csrc/stub_fftw3.h) serves the three planner calls the FFT wrapper makes, so the wrapper's own parallel loops run for real while the transform itself is a stub; MPI paths do not run",
         "oracle tolerance |x-ref| <= 1e-9|ref| + 1e-12 max|ref| (property allows reassociation inside reductions)",
         "models/settings are synthetic with seeded parameters; molecules have 1-3 atoms",
     ]
@@ -138,6 +139,7 @@ def plan(tier, seed, args):
             "misc_direct": (6, 5, 16, 6),
             "legacy_direct": (8, 5, 16, 6),
             "legacy_sdmx": (6, 5, 10, 6),
+            "fft_wrapper": (10, 5, 16, 6),
         }
     else:
         table = {
@@ -154,6 +156,7 @@ def plan(tier, seed, args):
             "misc_direct": (100, 8, 100, 8),
             "legacy_direct": (200, 8, 200, 8),
             "legacy_sdmx": (150, 8, 150, 8),
+            "fft_wrapper": (200, 8, 200, 8),
         }
 
     if args.cases is not None:
@@ -742,5 +745,5 @@ def coverage(done, tier):
         "max_rel_diff_observed": maxrel,
         "simulated_time": "omp_get_wtime is served from the step counter; no code under test reads it",
         "real_components": ["libmcider/libnumint C sources of the working tree", "OpenBLAS/LAPACK", "libm", "ciderpress Python wrappers", "PySCF (e2e workloads)"],
-        "stub_components": ["OpenMP runtime (simulated: csrc/simgomp.c)", "malloc/free of the C back end (poisoning wrapper)", "FFTW (absent; aborting stub, never called)"],
+        "stub_components": ["OpenMP runtime (simulated: csrc/simgomp.c)", "malloc/free of the C back end (poisoning wrapper)", "FFTW (absent; naive separable DFT stand-in, validated against numpy.fft by the repository's own tests_fft_plan.py)"],
     }
